@@ -50,6 +50,15 @@ class AstCase(pfbase.CfgCase):
         with warnings.catch_warnings():
             warnings.simplefilter('ignore')
             try:
+                warm = self.params.get('warmup_indent')
+                pfbase.KEEP_STATE[0] = False
+                if warm:
+                    pfbase.fresh_state()
+                    pfbase.KEEP_STATE[0] = True       # the observed print must see what the warm-up left behind
+                    # the same value printed under another indent setting first
+                    with NoTracing():
+                        pfbase.native_pformat(self.value, 30, 30, indent=warm)
+                        pfbase.native_pformat(self.value, 79, 71, indent=warm)
                 if self.native:
                     text = pfbase.native_pformat(self.value, w, rw, indent=self.indent)
                     indents = [len(l) - len(l.lstrip(' ')) for l in text.split('\n')[1:] if l.strip()]
@@ -183,6 +192,7 @@ def value_params(tier, seed):
                             {'src': "{'k': vf.subcls.%s%s(%s)}" % (flavour, b.capitalize(), bv)}))
     out.append(('call:nested', {'src': "vf.props.c02.Box([vf.props.c02.Box(1, tag='two words'), {'a': vf.props.c02.Box((1,))}])"}))
     out.append(('call:kw-long', {'src': "vf.props.c02.Box('%s', tag=[1, 2, 3])" % ('word ' * 12)}))
+    out.append(('longkey', {'src': "{'%s': 1, 2: ['%s']}" % ('key words ' * 9, 'value words ' * 8)}))
     words = 'word ' * 14
     out.append(('call:kw-long-str', {'src': "vf.props.c02.Box(1, tag='%s')" % words}))
     out.append(('namespace:long-str', {'src': "types.SimpleNamespace(name='%s', x=1)" % words}))
@@ -205,6 +215,13 @@ def cases(tier, seed):
                             'params': dict(p, slice=sl, indent=ind),
                             'budget': 60.0 if tier == 'quick' else 240.0, 'path_timeout': 30.0,
                             'twin': i == 0 and ind == 4})
+    # the same value printed before under a different indent (per-process caches)
+    for name, src in (('longkey', "{'%s': 1, 2: ['%s']}" % ('key words ' * 9, 'value words ' * 8)),
+                      ('nested-strs', "[{'k': '%s'}, ('%s',)]" % ('alpha beta ' * 8, 'gamma delta ' * 7))):
+        for warm, ind in ((2, 4), (4, 3), (8, 1)):
+            out.append({'name': 'warm:%s|page|i%d-after-i%d' % (name, ind, warm), 'family': 'ast',
+                        'params': {'src': src, 'slice': 'page', 'indent': ind, 'warmup_indent': warm},
+                        'budget': 90.0 if tier == 'quick' else 300.0, 'path_timeout': 30.0})
     sk = ['[A0, A1]', '{A0: [A1, A2]}', '[A0, (A1, {A2: A0})]', '[[[A0]], A1]', '{A0: A1, A2: A0, A1: A2}']
     for j, s in enumerate(sk if tier == 'thorough' else sk[:3]):
         out.append({'name': 'indent-symbolic:%s' % s, 'family': 'indent',
